@@ -186,7 +186,7 @@ def run_impl(ops_path, out_path, timeout=600):
 
 
 def read_lines(path):
-    with open(path) as f:
+    with open(path, encoding="utf-8", errors="replace") as f:
         return f.read().split("\n")[:-1] if os.path.getsize(path) else []
 
 
@@ -258,28 +258,32 @@ def mismatch_kind(i, m):
     return k(i) + "/" + k(m)
 
 
-def first_diff_kind(lines):
-    """(kind, op-name) of the first disagreement of a history, or None"""
+def first_diff_kind(lines, ignore=()):
+    """(kind, op-name) of the first disagreement of a history (at an operation not in `ignore`),
+    or None"""
     impl, model = eval_history(lines, "shrink")
     n = min(len(impl), len(model))
     for j in range(n):
         if impl[j] != model[j]:
-            return (mismatch_kind(impl[j], model[j]), lines[j].split(" ")[0] if j < len(lines) else "")
+            op = lines[j].split(" ")[0] if j < len(lines) else ""
+            if op in ignore:
+                continue
+            return (mismatch_kind(impl[j], model[j]), op)
     if len(impl) != len(model):
         return ("length", "")
     return None
 
 
-def shrink(lines, budget_s=60):
-    """delta-debugging on operation lines; a candidate is kept only if its first disagreement is
-    of the same kind, at the same kind of operation, as the original one"""
+def shrink(lines, budget_s=60, ignore=()):
+    """delta-debugging on operation lines; a candidate is kept only if its first disagreement
+    (outside `ignore`) is of the same kind, at the same kind of operation, as the original one"""
     t0 = time.time()
-    want = first_diff_kind(lines)
+    want = first_diff_kind(lines, ignore)
     if want is None:
         return lines
 
     def differs(cand):
-        return first_diff_kind(cand) == want
+        return first_diff_kind(cand, ignore) == want
     cur = list(lines)
     n = 2
     while len(cur) >= 2 and time.time() - t0 < budget_s:
@@ -301,7 +305,7 @@ def shrink(lines, budget_s=60):
     # cut everything after the first differing line
     impl, model = eval_history(cur, "shrink")
     for j in range(min(len(impl), len(model))):
-        if impl[j] != model[j]:
+        if impl[j] != model[j] and cur[j].split(" ")[0] not in ignore:
             cur = cur[:j + 1]
             break
     return cur
@@ -311,9 +315,12 @@ def write_replay(prop, seed, lines, note):
     os.makedirs(REPLAYS, exist_ok=True)
     path = os.path.join(REPLAYS, "%s-%s.ops" % (prop, seed))
     with open(path, "w") as f:
+        head = [l for l in lines if l.startswith("#!")]
+        for h in head:
+            f.write(h + "\n")
         for n in note:
             f.write("# " + n + "\n")
-        f.write("\n".join(lines) + "\n")
+        f.write("\n".join(l for l in lines if not l.startswith("#!")) + "\n")
     return path
 
 
